@@ -36,6 +36,9 @@ def movers(rng, n):
             out.append(randprog.plain_inst(rng, 1.0))
         elif c < 0.74:
             out.append({'k': 'string', 'text': rng.choice(['é', 'ab€x', 'Ωß', 'q中z ', '😀', 'okay'])})     # all of even UTF-8 length
+        elif c < 0.76:
+            # a pack format without byte-order character (accepted, native mode): whatever its size is, what follows must know it
+            out.append({'k': 'packn', 'fmt': rng.choice(['L', 'l', 'Q', 'H', 'I']), 'val': rng.randrange(0, 1 << 15)})
         elif c < 0.80:
             out.append({'k': 'seq', 'd': rng.choice(['shorts', 'ints', 'longs', 'longs', 'longlongs']), 'vals': [rng.randrange(0, 1 << 15) for _ in range(rng.randint(1, 3))]})
         elif c < 0.88:
@@ -189,7 +192,16 @@ def run_case(asm, acc, case):
     lines = P.render(items)
     src = '\n'.join(lines) + '\n'
     acc['n'] += 1
-    u = monitors.observe(asm, src, False, tap=False)
+    preseed = None
+    if case['idx'] % 4 == 3:
+        # the caller's label table is left over from an earlier build: this program's own names, stale values, another order
+        names = [it['name'] for it in items if it['k'] == 'label']
+        prng = random.Random('c12-pre-%d' % case['idx'])
+        prng.shuffle(names)
+        preseed = {'labels': {n: 2 * prng.randrange(0, 3000) for n in names}}
+        acc['ctr']['builds_with_leftover_label_table'] += 1
+    mk = lambda: None if preseed is None else {'labels': dict(preseed['labels'])}  # noqa
+    u = monitors.observe(asm, src, False, tap=False, preseed=mk())
     if not u.ok:
         acc['ctr']['refused_uncompressed'] += 1
         acc['ctr']['refused_u:' + u.exc['type']] += 1
@@ -197,7 +209,7 @@ def run_case(asm, acc, case):
     acc['ctr']['accepted_uncompressed'] += 1
     if interesting(items):
         acc['ntkeys'].add(core.ckey(src))
-    c = monitors.observe(asm, src, True, tap=False)
+    c = monitors.observe(asm, src, True, tap=False, preseed=mk())
     if c.ok:
         acc['ctr']['accepted_both'] += 1
         if len(c.out) < len(u.out):
